@@ -1,5 +1,6 @@
 """C15 — check configuration and MANIFEST entry."""
-CFG = {'assumptions': ['f64 inputs cross the boundary as bit patterns and are decoded to exact rationals; Rust f64 '
+CFG = {'scale_variants': False,   # max_segment_length / distances are not coordinates: densify at 2^40 would ask for 2^40 points
+ 'assumptions': ['f64 inputs cross the boundary as bit patterns and are decoded to exact rationals; Rust f64 '
                  'ops are IEEE-754; libm hypot is within 1 ulp and exact where the exact result is a binary64 value',
                  'coordinates, ratios, distances and max are finite and of moderate magnitude (no overflow / '
                  'subnormal intermediate results); max_segment_length > 0. Observed outside that range (not part of '
